@@ -325,3 +325,16 @@ def branch_contract(op, vn, resolver, t, expected_opcode):
         check("never_wraps", -128 <= d and d <= 127)
         check("opcode_and_displacement", len(r) == 2 and r[0] == expected_opcode and r[1] == d % 256)
     check("two_bytes", len(r) == 2 and op.supposed_length(vn, None) == 2)
+
+
+def quoted_string_directive_contract(p):
+    """The helper shared by every directive that takes a quoted string (.ascii, .text, .include, .incbin, .table, .include_ips): for a QUOTED_STRING token of
+    ANY text, exactly the two delimiters are dropped -- the first and the last character -- and everything between them is returned unchanged (also a
+    quote that is part of the text, e.g. the escaped quote ending `'say \\'hi\\''`)."""
+    from a816.parse.parser_states import parse_directive_with_quoted_string
+    v = p.current().value
+    n = len(v)
+    r = parse_directive_with_quoted_string(p)
+    check("only_the_two_delimiters_are_dropped", len(r) == n - 2)
+    check("first_and_last_character_of_the_text_kept", len(r) == 0 or (r[0] == v[1] and r[len(r) - 1] == v[n - 2]))
+    check("token_consumed", p.pos == 1)
